@@ -394,6 +394,11 @@ func (p *Pool) Put(x any) {
 		return
 	}
 	p.items = append(p.items, x)
+	if !zzvrt.Killed() && !zzvrt.Cur().QuietPool {
+		// the object is obtainable from here on: whatever the caller still does with it
+		// after Put is a separate step
+		zzvrt.Point("Pool.Put.done")
+	}
 }
 
 //go:norace
